@@ -796,7 +796,12 @@ def inner_labels(a, rng):
 
 
 def rand_q(a, rng):
-    return [rng.randint(-2, 3) for _ in a.chinfo.mod]
+    q = [rng.randint(-2, 3) for _ in a.chinfo.mod]
+    # non-trivial wherever possible: a shift by q != 0 (mod N) is what reorders / wraps the charges of the new inner leg
+    for i, m in enumerate(a.chinfo.mod):
+        if int(m) != 1 and q[i] % int(m) == 0 and rng.random() < 0.8:
+            q[i] = rng.randint(1, int(m) - 1) if int(m) > 1 else q[i]
+    return q
 
 
 def fact_step(Hh, rng, op, n):
@@ -806,22 +811,24 @@ def fact_step(Hh, rng, op, n):
     if op in ('svd', 'qr', 'lq'):
         st['out2'] = Hh.fresh()
         st['labels'] = inner_labels(a, rng)
-        st['inner_qconj'] = rng.choice([1, 1, -1])
+        # both directions; mostly the direction of the leg the new inner leg is derived from (then the charges are only
+        # shifted by the requested qtotal, not negated: the branch that has to reset the `sorted` flag on its own)
+        st['inner_qconj'] = int(a.legs[1 if op == 'lq' else 0].qconj) if rng.random() < 0.55 else rng.choice([1, -1])
     if op == 'svd':
         r = rng.random()
         qL = qR = None
-        if r < 0.2:
+        if r < 0.25:
             qL = rand_q(a, rng)
-        elif r < 0.4:
-            qR = rand_q(a, rng)
         elif r < 0.5:
+            qR = rand_q(a, rng)
+        elif r < 0.65:
             qL = rand_q(a, rng)
             qR = [int(x) - y for x, y in zip(a.qtotal, qL)]
         st.update(cutoff=rng.choice([None, None, None, 1.e-8, 0.3]), qL=qL, qR=qR)
     elif op in ('qr', 'lq'):
         mode = 'complete' if rng.random() < 0.15 else 'reduced'
         st.update(mode=mode, cutoff=None if mode == 'complete' else rng.choice([None, None, 1.e-8]),
-                  pos_diag=rng.random() < 0.4, qQ=rand_q(a, rng) if rng.random() < 0.4 else None)
+                  pos_diag=rng.random() < 0.4, qQ=rand_q(a, rng) if rng.random() < 0.65 else None)
     elif op == 'eigh':
         st.update(UPLO=rng.choice(['L', 'U']), sort=rng.choice([None, None, 'm>', '<', '>']))
     elif op == 'eig':
